@@ -8,7 +8,7 @@ __CPROVER_requires (VP_IDLE () && !vp_g.waited)
 __CPROVER_ensures (!vp_g.spin && !vp_g.dead && !vp_g.waited && (__CPROVER_return_value == 0 || __CPROVER_return_value == 1))
 __CPROVER_ensures (__CPROVER_return_value ? (vp_g.hold == VP_HOLD_OF (l_type) && !vp_g.queued && w->nw.waiting == 0)
 					  : (vp_g.hold == VP_NONE && vp_g.queued == __CPROVER_old (vp_g.queued)))
-__CPROVER_assigns (VP_G_STEP, vp_g.queued, vp_fw, mu->word, mu->waiters, w->nw.waiting, w->remove_count);
+__CPROVER_assigns (VP_G_STEP, vp_g.queued, VP_FW_DATA, mu->word, mu->waiters, w->nw.waiting, w->remove_count);
 
 static lock_type Wt, Rt;
 static nsync_mu the_mu;
@@ -24,6 +24,7 @@ static void any_types (void) {
 static void setup (int hold, int spin, int waited) {
 	any_types ();
 	vp_reg_clear ();
+	vp_fw_init ();
 	vp_reg.mu_word = &the_mu.word;
 	vp_reg.my_waiting = &the_w.nw.waiting;
 	vp_mu_init_ghost (hold, spin, waited);
